@@ -311,56 +311,68 @@ theorem split_getElem? (a : Annotation) (i : Nat) (hi : i < a.seq.length) :
 
 theorem slice_slice (a : Annotation) (i j k l : Nat) (hij : i ≤ j) (hj : j ≤ a.seq.length) (hkl : k ≤ l)
     (hl : l ≤ j - i) (hl0 : 0 < l ∨ a.intervals = none) :
-    slice (slice a (i : Int) (j : Int)) (k : Int) (l : Int) = slice a ((i + k : Nat) : Int) ((i + l : Nat) : Int) := by
-  rw [slice_eq_general a, slice_eq_general, slice_eq_general]
-  unfold sliceGeneral
-  apply Annotation.ext'
-  · exact pySlice_pySlice_nat a.seq i j k l hij hj hkl hl
-  · rfl
-  · rfl
-  · rfl
-  · rfl
-  · show (if (k : Int) > 0 then none else (if (i : Int) > 0 then none else a.nterm)) =
-      (if ((i + k : Nat) : Int) > 0 then none else a.nterm)
-    split <;> split <;> first | rfl | (split <;> first | rfl | omega) | omega
-  · show (if (l : Int) < ((pySlice a.seq (i : Int) (j : Int)).length : Int) then none
-        else (if (j : Int) < (a.seq.length : Int) then none else a.cterm)) =
-      (if ((i + l : Nat) : Int) < (a.seq.length : Int) then none else a.cterm)
-    rw [pySlice_length_nat a.seq i j hij hj]
-    split <;> split <;> first | rfl | (split <;> first | rfl | omega) | omega
-  · show (a.internal.map (·.filterMap (sliceEntry i j))).map (·.filterMap (sliceEntry k l)) =
-      a.internal.map (·.filterMap (sliceEntry ((i + k : Nat) : Int) ((i + l : Nat) : Int)))
-    cases a.internal with
-    | none => rfl
-    | some d =>
-      simp only [Option.map_some, List.filterMap_filterMap]
-      congr 2
-      funext p
-      have := sliceEntry_bind (i : Int) (j : Int) (k : Int) (l : Int) (by omega) (by omega) p
-      rw [this]; congr 1 <;> omega
-  · show noneIfEmpty ((noneIfEmpty (a.intervals.map (·.filterMap (sliceInterval i j)))).map
-        (·.filterMap (sliceInterval k l))) =
-      noneIfEmpty (a.intervals.map (·.filterMap (sliceInterval ((i + k : Nat) : Int) ((i + l : Nat) : Int))))
-    cases hI : a.intervals with
-    | none => rfl
-    | some L =>
-      have hl0' : 0 < l := by
-        rcases hl0 with h | h
-        · exact h
-        · rw [hI] at h; cases h
-      have hcomp : L.filterMap (sliceInterval ((i + k : Nat) : Int) ((i + l : Nat) : Int)) =
-          (L.filterMap (sliceInterval i j)).filterMap (sliceInterval k l) := by
-        rw [List.filterMap_filterMap]
-        congr 1
-        funext iv
-        have := sliceInterval_bind (i : Int) (j : Int) (k : Int) (l : Int) (by omega) (by omega) (by omega) iv
-        rw [this]; congr 1 <;> omega
-      simp only [Option.map_some]
-      rw [hcomp]
-      cases L.filterMap (sliceInterval i j) with
-      | nil => rfl
-      | cons x xs => rfl
-  · rfl
-  · rfl
+    slice (slice a (i : Int) (j : Int)) (k : Int) (l : Int) = slice a ((i + k : Nat) : Int) ((i + l : Nat) : Int) :=
+  slice_slice' a i j k l hij hj hkl hl hl0
+
+/-- for every additive per-residue weight `w` (e.g. residue mass + masses of the residue's modifications) the total is
+unchanged by reversal -/
+theorem reverse_weight (w : Char × List Mod → Rat) (a : Annotation) (sw : Bool) :
+    weight w (residues (reverse a sw)) = weight w (residues a) := by
+  rw [reverse_residues]; exact weight_perm w _ _ (List.reverse_perm _)
+
+theorem shift_weight (w : Char × List Mod → Rat) (a : Annotation) (k : Int) (hn : a.seq ≠ []) (hk : KeysOK a) :
+    ∃ b, shift a k = .ok b ∧ weight w (residues b) = weight w (residues a) ∧ (residues b).Perm (residues a) := by
+  obtain ⟨b, hb, hr⟩ := shift_residues a k hn hk
+  have hp : (residues b).Perm (residues a) := by
+    rw [hr]
+    exact List.perm_append_comm.trans (by rw [List.take_append_drop])
+  exact ⟨b, hb, weight_perm w _ _ hp, hp⟩
+
+theorem shuffle_weight (w : Char × List Mod → Rat) (a : Annotation) (perm : List Nat) (hn : a.seq ≠ [])
+    (hp : perm.Perm (List.range a.seq.length)) (hk : KeysOK a) :
+    ∃ b, shuffle a perm = .ok b ∧ weight w (residues b) = weight w (residues a) := by
+  obtain ⟨b, hb, _, hperm, _⟩ := shuffle_residues a perm hn hp hk
+  exact ⟨b, hb, weight_perm w _ _ hperm⟩
+
+theorem sort_weight (w : Char × List Mod → Rat) (a : Annotation) (hk : KeysOK a) :
+    ∃ b, sortResidues a = .ok b ∧ weight w (residues b) = weight w (residues a) := by
+  obtain ⟨b, hb, _, hperm, _⟩ := sort_residues a hk
+  exact ⟨b, hb, weight_perm w _ _ hperm⟩
+
+theorem split_weight (w : Char × List Mod → Rat) (a : Annotation) :
+    ((split a).map fun p => weight w (residues p)).sum = weight w (residues a) := by
+  rw [← weight_flatMap, split_concat]
+
+/-- terminal and global annotations of a slice -/
+theorem slice_globals_terminals (a : Annotation) (s e : Int) :
+    (slice a s e).nterm = (if s > 0 then none else a.nterm) ∧
+    (slice a s e).cterm = (if e < (a.seq.length : Int) then none else a.cterm) ∧
+    (slice a s e).isotope = a.isotope ∧ (slice a s e).static = a.static ∧ (slice a s e).labile = a.labile ∧
+    (slice a s e).unknown = a.unknown ∧ (slice a s e).charge = a.charge ∧ (slice a s e).adducts = a.adducts :=
+  slice_fields a s e
+
+/-- when neither cut falls strictly inside an interval, a slice keeps exactly the fully contained intervals, re-indexed -/
+theorem slice_contained_intervals (a : Annotation) (i j : Int) (L : List Interval) (hL : a.intervals = some L)
+    (hwf : ∀ iv ∈ L, iv.start < iv.stop)
+    (hcut : ∀ iv ∈ L, ¬ (iv.start < i ∧ i < iv.stop) ∧ ¬ (iv.start < j ∧ j < iv.stop)) :
+    (slice a i j).intervals = noneIfEmpty (some ((L.filter fun iv => decide (i ≤ iv.start ∧ iv.stop ≤ j)).map
+      fun iv => { iv with start := iv.start - i, stop := iv.stop - i })) := by
+  rw [slice_eq_general]
+  show noneIfEmpty (a.intervals.map (·.filterMap (sliceInterval i j))) = _
+  rw [hL]
+  simp only [Option.map_some]
+  congr 2
+  clear hL
+  induction L with
+  | nil => rfl
+  | cons iv t ih =>
+    have h1 := hwf iv (by simp)
+    have h2 := hcut iv (by simp)
+    rw [List.filterMap_cons, sliceInterval_contained i j iv h1 h2.1 h2.2,
+      ih (fun x hx => hwf x (by simp [hx])) (fun x hx => hcut x (by simp [hx]))]
+    by_cases hc : i ≤ iv.start ∧ iv.stop ≤ j
+    · simp [hc]
+    · simp [hc]
+
 
 end Pept.Reorder.C11
